@@ -62,11 +62,16 @@ class Seq(Spec):
 
 
 class Obj(Spec):
-    def __init__(self, cls, fields=None, lazy=True, prov='self-compiled'):
+    def __init__(self, cls, fields=None, lazy=True, prov='self-compiled', maybe=()):
         self.cls = cls
         self.fields = fields or {}
         self.lazy = lazy
         self.prov = prov
+        self.maybe = maybe
+
+
+TD_PROTECTED = ('_push', '_pop', '_data', '_dict', 'level', 'getitem', '__getitem__', '__contains__', 'has_key',
+                '__call__', '__class__', '__dict__', 'namespace', 'render', 'taintWrapper')
 
 
 class TD(Spec):
@@ -135,7 +140,7 @@ def instantiate(E, name, spec):
         return sq
     if isinstance(spec, Obj):
         cls = E.lookup_qual(spec.cls) if isinstance(spec.cls, str) else spec.cls
-        ref = E.alloc(HObj(cls, {}, lazy=spec.lazy, name=name, prov=spec.prov))
+        ref = E.alloc(HObj(cls, {}, lazy=spec.lazy, name=name, prov=spec.prov, maybe=spec.maybe))
         for f, fs in spec.fields.items():
             E.heap[ref.addr].fields[f] = instantiate(E, '%s.%s' % (name, f), fs)
         return ref
@@ -145,7 +150,19 @@ def instantiate(E, name, spec):
         E.assume(s0.length >= 0)
         items = [VO('%s_top%d' % (name, i)) for i in range(spec.items)]
         data = E.alloc(HList(items, base=s0))
-        dct = E.alloc(HDict(base='dict_' + name))
+        dh = HDict(base='dict_' + name)
+        # assumption (listed): the namespace's own attribute dictionary does not shadow the
+        # TemplateDict machinery itself
+        dh.deleted = set(TD_PROTECTED)
+        E.assumptions_used.add('TemplateDict._dict (attributes set on the namespace) does not shadow the namespace\'s own '
+                               'methods/fields: ' + ', '.join(sorted(TD_PROTECTED)))
+        # namespace invariant established by String.__call__ (proved there) and inherited by
+        # sub-templates and <dtml-with only>: both guard attributes are set (possibly to None)
+        dh.entries.append([VC('guarded_getattr'), VO(name + '.guarded_getattr')])
+        dh.entries.append([VC('guarded_getitem'), VO(name + '.guarded_getitem')])
+        E.assumptions_used.add('a namespace (TemplateDict) reaching a render function has guarded_getattr and guarded_getitem '
+                               'set (possibly None): established by String.__call__ for namespaces it creates')
+        dct = E.alloc(dh)
         lvl = VI(z3.Int('level_' + name))
         ref = E.alloc(HObj(cls, {'_data': data, '_dict': dct, 'level': lvl}, name=name, prov='caller-data'))
         E.ghost[('td_entry', ref.addr)] = {'data_addr': data.addr, 'base': s0, 'items': list(items),
@@ -168,12 +185,45 @@ def instantiate(E, name, spec):
     raise Unsupported('param spec %r' % (spec,))
 
 
+def abstract_value(E, cur, spec, name):
+    """replace ``cur`` by a fresh value of the declared shape; the shape must be an
+    over-approximation of cur (conformance), otherwise Unsupported"""
+    if spec == 'same' or spec is None:
+        return cur
+    if isinstance(spec, Opaque):
+        return instantiate(E, name, spec)
+    if isinstance(spec, Int):
+        if not E.is_intlike(cur):
+            raise Unsupported('cut: %s is not int-like (%r)' % (name, cur))
+        return instantiate(E, name, spec)
+    if isinstance(spec, Str):
+        if not E.is_strlike(cur):
+            raise Unsupported('cut: %s is not str-like (%r)' % (name, cur))
+        return instantiate(E, name, spec)
+    if isinstance(spec, Seq):
+        ok = isinstance(cur, VSeq) or (isinstance(cur, VRef) and isinstance(E.heap[cur.addr], HList))
+        if not ok:
+            raise Unsupported('cut: %s is not a sequence (%r)' % (name, cur))
+        if isinstance(cur, VSeq) and cur.kind == 'lazy' and spec.kind != 'lazy' and spec.kind != 'any':
+            raise Unsupported('cut: lazy sequence abstracted as %s' % spec.kind)
+        return instantiate(E, name, spec)
+    if isinstance(spec, ListS):
+        if not (isinstance(cur, VRef) and isinstance(E.heap[cur.addr], HList)):
+            raise Unsupported('cut: %s is not a list (%r)' % (name, cur))
+        return instantiate(E, name, spec)
+    if isinstance(spec, DictS):
+        if not (isinstance(cur, VRef) and isinstance(E.heap[cur.addr], HDict)):
+            raise Unsupported('cut: %s is not a dict (%r)' % (name, cur))
+        return instantiate(E, name, spec)
+    raise Unsupported('cut: abstraction spec %r' % (spec,))
+
+
 # ---------------------------------------------------------------- contracts
 class Contract:
     def __init__(self, func, params, requires=(), ensures=None, exc_ensures=None,
                  raises=None, raises_any=False, invariants=None, uses=(), returns=None,
                  effects=None, concretize=None, native=None, pre_hook=None, post_hook=None,
-                 notes='', propagate_opaque=True, max_paths=None, exit_hook=None):
+                 notes='', propagate_opaque=True, max_paths=None, exit_hook=None, variant=None, cuts=None):
         self.func = func
         self.params = params
         self.requires = list(requires)
@@ -194,7 +244,11 @@ class Contract:
         self.propagate_opaque = propagate_opaque
         self.max_paths = max_paths
         self._depth0 = 1
-        REGISTRY[func] = self
+        self.variant = variant
+        self.cuts = list(cuts or [])
+        self._cut_nodes = {}
+        self.key = func if not variant else '%s#%s' % (func, variant)
+        REGISTRY[self.key] = self
 
 
 def contract(func, **kw):
@@ -240,9 +294,19 @@ def verify(E, c, verbose=False):
     res.src = (fn.mod.path, fn.node.lineno, ast.dump(fn.node))
     ens_nodes = {k: _parse(v) for k, v in c.ensures.items()}
     exc_nodes = {k: _parse(v) for k, v in c.exc_ensures.items()}
+    c._cut_nodes = {}
+    for ci, cut in enumerate(c.cuts):
+        want = ' '.join(cut['before'].split())
+        hits = [n for n in ast.walk(fn.node) if isinstance(n, ast.stmt)
+                and ' '.join(ast.unparse(n).split()).startswith(want)]
+        # nested statements of a matching compound statement do not count
+        if len(hits) != 1:
+            res.unsupported.append('cut %d: locator %r matches %d statements of %s' % (ci, cut['before'], len(hits), c.func))
+        else:
+            c._cut_nodes[id(hits[0])] = ci
     work = [[]]
     limit = c.max_paths or E.max_paths
-    prefix = c.func
+    prefix = c.key
     # make sure every declared clause shows up as an obligation even if no path reaches it
     while work:
         dec = work.pop()
@@ -335,6 +399,13 @@ def verify(E, c, verbose=False):
                 res.unsupported.append(msg)
         except RecursionError:
             res.unsupported.append('recursion limit')
+        except (PyRaise, _Return):
+            raise
+        except Exception as ex:  # engine defect on this path: undecided, never a verdict
+            import traceback as _tb
+            msg = 'engine error: %r at %s' % (ex, _tb.format_exc().strip().splitlines()[-3].strip())
+            if msg not in res.unsupported:
+                res.unsupported.append(msg)
         work.extend(E.pending)
     if c.raises is not None and (prefix + '::raises_only') not in E.obligations and not res.unsupported:
         from .engine import Obligation
@@ -365,29 +436,60 @@ def apply_contract(E, c, fn, args, kwargs, node):
     assume ensures; fork declared exceptional outcomes"""
     env = Env(fn.mod, closure=None, fn=fn)
     E.bind_params(fn, args, kwargs, env)
-    caller = E.cur_contract.func
+    caller = E.cur_contract.key
     site = '%s::call.%s' % (caller, c.func.split('.')[-1])
+    # ghost entry snapshots of namespace arguments are relative to *this* call
+    saved_snaps = {}
+    for v in env.locals.values():
+        if isinstance(v, VRef) and isinstance(E.heap[v.addr], HObj):
+            h = E.heap[v.addr]
+            if isinstance(h.cls, VCls) and h.cls.name == 'TemplateDict' and isinstance(h.fields.get('_data'), VRef):
+                k = ('td_entry', v.addr)
+                saved_snaps[k] = E.ghost.get(k)
+                lst = E.heap[h.fields['_data'].addr]
+                E.ghost[k] = {'data_addr': h.fields['_data'].addr, 'base': lst.base, 'items': list(lst.items),
+                              'level': h.fields.get('level')}
+    try:
+        return _apply_contract(E, c, fn, args, kwargs, node, env, site)
+    finally:
+        for k, v in saved_snaps.items():
+            if v is None:
+                E.ghost.pop(k, None)
+            else:
+                E.ghost[k] = v
+
+
+def _apply_contract(E, c, fn, args, kwargs, node, env, site):
     for i, r in enumerate(c.requires):
         v = E.eval_spec(r, env)
         E.oblige('%s.requires%d' % (site, i), E.as_z3_bool(v), 'call_pre', r)
     ens_nodes = {k: _parse(v) for k, v in c.ensures.items()}
+    exc_nodes = {k: _parse(v) for k, v in c.exc_ensures.items()}
     saved_old = getattr(E, 'old_stash', {})
-    old = _collect_old(E, list(ens_nodes.values()), env)
+    old = _collect_old(E, list(ens_nodes.values()) + list(exc_nodes.values()), env)
     E.trace.append(('contract-call', c.func))
     E.havoced = True
+
+    def raise_with(cls):
+        if c.effects:
+            c.effects(E, env.locals, 'raise')
+        exc = VExc(cls, [], sym=True, uid=E.fresh('exc'))
+        env.locals['exc'] = exc
+        E.old_stash = old
+        for k, nd in exc_nodes.items():
+            E.assume(E.as_z3_bool(E.eval_spec(nd, env)))
+        if not E.feasible(z3.BoolVal(True)):
+            raise PathAbort()
+        raise PyRaise(exc)
     try:
         # exceptional outcomes
         if c.raises_any:
             if E.decide(2, 'call %s raises' % c.func) == 1:
-                if c.effects:
-                    c.effects(E, env.locals, 'raise')
-                raise PyRaise(VExc('Exception', [], sym=True, uid=E.fresh('exc')))
+                raise_with('Exception')
         elif c.raises:
             k = E.decide(len(c.raises) + 1, 'call %s raises' % c.func)
             if k > 0:
-                if c.effects:
-                    c.effects(E, env.locals, 'raise')
-                raise PyRaise(VExc(exc_canon(c.raises[k - 1]), [], sym=True, uid=E.fresh('exc')))
+                raise_with(exc_canon(c.raises[k - 1]))
         if c.effects:
             c.effects(E, env.locals, 'normal')
         result = instantiate(E, E.fresh('ret_' + c.func.split('.')[-1]), c.returns) if c.returns else E.fresh_opaque('ret')
@@ -395,6 +497,8 @@ def apply_contract(E, c, fn, args, kwargs, node):
         E.old_stash = old
         for k, nd in ens_nodes.items():
             E.assume(E.as_z3_bool(E.eval_spec(nd, env)))
+        if not E.feasible(z3.BoolVal(True)):
+            raise PathAbort()
         return result
     finally:
         E.old_stash = saved_old
